@@ -177,7 +177,7 @@ func (p *Program) VerifyFunction(id string) (res *FuncResult) {
 		for i, r := range x.results {
 			post[fmt.Sprintf("r%d", i)] = r
 		}
-		if len(x.results) == 1 {
+		if len(x.results) >= 1 {
 			post["ret"] = x.results[0]
 		}
 		rs := fn.Signature.Results()
@@ -271,6 +271,27 @@ func (p *Program) ifaceMethod(iid string) *types.Func {
 // checkFrame: every heap component the body may write must be covered by the assigns clause.
 func (e *Engine) checkFrame(fn *ssa.Function, fc *FuncContract) {
 	allowed := e.P.expandAssigns(fc)
+	for _, a := range fc.Assigns {
+		if strings.HasPrefix(a, "*") && len(a) > 1 {
+			ok := false
+			for _, prm := range fn.Params {
+				if prm.Name() == a[1:] {
+					ok = true
+					switch u := prm.Type().Underlying().(type) {
+					case *types.Pointer:
+						allowed.comps = append(allowed.comps, "H."+typeID(u.Elem())+".")
+					case *types.Slice:
+						allowed.comps = append(allowed.comps, "E."+typeID(u.Elem())+".")
+					default:
+						allowed.all = true
+					}
+				}
+			}
+			if !ok {
+				e.cerrors = append(e.cerrors, fmt.Sprintf("%s: assigns %s: no such parameter", fc.Src, a))
+			}
+		}
+	}
 	if allowed.all {
 		return
 	}
